@@ -458,11 +458,16 @@ def c09(tier, seed):
 def c15(tier, seed):
     if tier == "quick":
         cfgs = [("c15-tr", dict(MaxSend=2, Depth=4, BadBudget=0, SetBudget=0, RekeyBudget=2, SmallBufs=False)),
-                ("c15-sl", dict(Stateful=False, MaxSend=1, Depth=3, BadBudget=0, SetBudget=0, RekeyBudget=2, SmallBufs=False))]
+                ("c15-sl", dict(Stateful=False, MaxSend=1, Depth=3, BadBudget=0, SetBudget=0, RekeyBudget=2, SmallBufs=False)),
+                ("c15-ow", dict(OneWayT=True, MaxSend=1, Depth=4, BadBudget=0, SetBudget=0, RekeyBudget=2, SmallBufs=False)),
+                ("c15-ow-sl", dict(OneWayT=True, Stateful=False, MaxSend=1, Depth=3, BadBudget=0, SetBudget=0, RekeyBudget=2, SmallBufs=False)),
+                ("c15-ring", dict(MaxSend=1, Depth=3, BadBudget=0, SetBudget=0, RekeyBudget=1, SmallBufs=False, backends="mix-sample"))]
     else:
         cfgs = [("c15-tr", dict(MaxSend=2, Depth=6, BadBudget=0, SetBudget=0, RekeyBudget=3, SmallBufs=False)),
                 ("c15-sl", dict(Stateful=False, MaxSend=2, Depth=4, BadBudget=0, SetBudget=0, RekeyBudget=2, SmallBufs=False)),
-                ("c15-ow", dict(OneWayT=True, MaxSend=2, Depth=5, BadBudget=0, SetBudget=0, RekeyBudget=3, SmallBufs=False))]
+                ("c15-ow", dict(OneWayT=True, MaxSend=2, Depth=5, BadBudget=0, SetBudget=0, RekeyBudget=3, SmallBufs=False)),
+                ("c15-ow-sl", dict(OneWayT=True, Stateful=False, MaxSend=1, Depth=4, BadBudget=0, SetBudget=0, RekeyBudget=2, SmallBufs=False)),
+                ("c15-ring", dict(MaxSend=2, Depth=4, BadBudget=0, SetBudget=0, RekeyBudget=2, SmallBufs=False, backends="mix"))]
     tl, rl = tlegs("C15", seed, cfgs, per_scn=1 if tier == "quick" else 2)
     res = merge("model_checking", tl, rl, RULE_T +
                  "here: every sequence of {write, deliver, rekey_outgoing, rekey_incoming, rekey_manually(k1|k2|both, through "
@@ -476,6 +481,8 @@ def c16(tier, seed):
     if tier == "quick":
         cfgs = [("c16-sl", dict(Stateful=False, MaxSend=1, Depth=3, BadBudget=0, SetBudget=0, SmallBufs=True, BigBudget=1)),
                 ("c16-sl-top", dict(Stateful=False, NonceMode="top", MaxSend=1, Depth=3, BadBudget=0, SetBudget=0)),
+                ("c16-sl-rekey", dict(Stateful=False, MaxSend=1, Depth=3, BadBudget=0, SetBudget=0, RekeyBudget=1, SmallBufs=False)),
+                ("c16-sl-ow", dict(Stateful=False, OneWayT=True, MaxSend=1, Depth=2, BadBudget=0, SetBudget=0, SmallBufs=False)),
                 ("c16-sl-ring", dict(Stateful=False, MaxSend=1, Depth=2, BadBudget=0, SetBudget=0, SmallBufs=False,
                                      backends="mix-sample"))]
     else:
@@ -513,7 +520,7 @@ def c11(tier, seed):
 
 
 def c12(tier, seed):
-    t1 = run_tlc("MC_Builder", dict(FullRollback=True, PatSetB=BASE), invariants=["PrereqSane"], name="c12-builder",
+    t1 = run_tlc("MC_Builder", dict(FullRollback=True, PatSetB=BASE, BuilderDhs=["25519", "P256"]), invariants=["PrereqSane"], name="c12-builder",
                  workers=1, timeout=1200)
     r1 = replay("C12", t1, seed, 1, threads=14)
     # a PSK that was not supplied is an error AT THE MESSAGE THAT NEEDS IT, and set_psk then lets it proceed
@@ -525,9 +532,9 @@ def c12(tier, seed):
                      TrafficMode="short")
     r2 = replay("C12", t2, seed, 1, threads=14)
     res = merge("model_checking", [t1, t2], [r1, r2],
-                "complete enumeration by TLC (spec/MC_Builder.tla): 38 patterns x 2 roles x 4 subsets of supplied static keys "
+                "complete enumeration by TLC (spec/MC_Builder.tla): 38 patterns x 2 roles x 4 subsets of supplied static keys x 2 DH functions (25519, P-256) "
                 "x modifier lists {none, psk0..psk9, fallback, psk1+fallback} x resolver lacking {nothing, rng, dh, cipher, "
-                "hash} = 19 760 build cases, each built on the real code (stub resolver for the missing primitive) and the "
+                "hash} = 39 520 build cases, each built on the real code (stub resolver for the missing primitive) and the "
                 "result/kind compared with the prerequisites DERIVED from the token table; plus sessions in which one endpoint "
                 "is built without one of its PSKs: the error must come at the message that needs it and set_psk at any later "
                 "time must let the same step succeed; honest runs from accepted configurations never hit "
@@ -585,13 +592,13 @@ def c20(tier, seed):
         t1 = session("c20-honest", PskMode="single", PubLens=[32], Profiles=["mid"], BufModes=["big", "exact"],
                      Variants=["tr", "sl"])
         r1 = replay("C20", t1, seed, 1, backends="mix-sample", threads=14)
-        t3 = transport("c20-transport", MaxSend=2, Depth=3, BadBudget=1, SetBudget=0, SmallBufs=True)
+        t3 = transport("c20-transport", MaxSend=2, Depth=3, BadBudget=1, SetBudget=0, RekeyBudget=1, SmallBufs=True)
         r3 = replay("C20", t3, seed, 1, backends="mix-sample", threads=14)
     else:
         t1 = session("c20-honest", PskMode="all", PubLens=[32], Profiles=["small", "mid", "max"], BufModes=["big", "exact"],
                      Variants=["tr", "sl"])
         r1 = replay("C20", t1, seed, 2, backends="mix", threads=14)
-        t3 = transport("c20-transport", MaxSend=2, Depth=4, BadBudget=1, SetBudget=1, SmallBufs=True)
+        t3 = transport("c20-transport", MaxSend=2, Depth=4, BadBudget=1, SetBudget=1, RekeyBudget=2, SmallBufs=True)
         r3 = replay("C20", t3, seed, 1, backends="mix", threads=14)
     # (b) fallback truth table
     t2 = run_tlc("MC_Fallback", {}, invariants=["IffEither"], name="c20-fallback", workers=1, timeout=300)
@@ -703,7 +710,7 @@ def c10(tier, seed):
     t2 = run_tlc("MC_StateMachine", sm, invariants=["InvS"], name="c10-sm", timeout=3000, view="ViewS",
                  action_constraint="EmitEdge")
     r2 = replay("C10", t2, seed, 1, threads=14)
-    t3 = run_tlc("MC_Builder", dict(FullRollback=True, PatSetB=["NN", "XX", "K", "I1K1"]), invariants=["PrereqSane"],
+    t3 = run_tlc("MC_Builder", dict(FullRollback=True, PatSetB=["NN", "XX", "K", "I1K1"], BuilderDhs=["25519", "P256"]), invariants=["PrereqSane"],
                  name="c10-builder", workers=1, timeout=1200)
     r3 = replay("C10", t3, seed, 1, threads=14)
     t4 = transport("c10-transport", MaxSend=1, Depth=3, BadBudget=2, SetBudget=1, RekeyBudget=1, SmallBufs=True)
